@@ -155,8 +155,14 @@ def op_result_field(p, r):
     return st.name, None, "Result in a struct field"
 
 
+def struct_or_outstruct(p, r):
+    """field rules hold for ordinary structs and for #[diplomat::out] structs alike"""
+    c = [x for x in (first(p, "struct"), first(p, "outstruct")) if x]
+    return r.choice(c) if c else None
+
+
 def op_std_option_prim_field(p, r):
-    st = first(p, "struct")
+    st = struct_or_outstruct(p, r)
     if not st:
         return None
     st.fields.insert(0, ("bad", raw("Option<%s>" % r.choice(["u8", "f64", "bool", "i32"]))))
@@ -164,7 +170,7 @@ def op_std_option_prim_field(p, r):
 
 
 def op_std_option_enum_field(p, r):
-    st, en = first(p, "struct"), first(p, "enum")
+    st, en = struct_or_outstruct(p, r), first(p, "enum")
     if not st or not en:
         return None
     st.fields.append(("bad", raw("Option<%s>" % en.name)))
@@ -175,8 +181,9 @@ def op_std_option_struct_field(p, r):
     sts = [t for t in p.types() if t.kind == "struct" and not t.lifetimes]
     if len(sts) < 2:
         return None
-    sts[1].fields.append(("bad", raw("Option<%s>" % sts[0].name)))
-    return sts[1].name, None, "std Option<struct> in a struct field"
+    host = r.choice([sts[1]] + [t for t in p.types() if t.kind == "outstruct"][:1])
+    host.fields.append(("bad", raw("Option<%s>" % sts[0].name)))
+    return host.name, None, "std Option<struct> in a struct field"
 
 
 def op_diplomat_option_ref(p, r):
